@@ -126,6 +126,8 @@ def run(ctx):
     nmax = ctx.pick(6, 10)
     HOT = [0, 1, 9, 10, 99, 100, 10 ** 9, 10 ** 15 - 1, 10 ** 15, 10 ** 18 - 1, 10 ** 18, 2 ** 62]
 
+    NEG = [-1, -9, -10, -11, -99, -100, -101, -1000, -10 ** 6, -10 ** 9, -10 ** 15, -10 ** 18, -10 ** 18 + 1, -10 ** 18 - 1, -2 ** 62, -(2 ** 63) + 1]
+
     def gen(fmt_name, r, n):
         style = {"noncanon": False, "tags": r.random() < 0.7, "score_mode": "int"}
         fc = make_file(fmt_name, r, n, r.choice(["tiny", "normal", "wide"]), style)
@@ -138,6 +140,11 @@ def run(ctx):
                 v["start"], v["stop"] = a, a + r.choice([1, 9, 10 ** 3])
                 idx = list(FORMATS[fmt_name].fields).index("start")
                 rec["texts"][idx], rec["texts"][idx + 1] = str(v["start"]), str(v["stop"])
+            # signed integer columns: negative values at the digit-count boundaries
+            for f in ("summit", "score"):
+                if f in v and fmt_name in ("narrowpeak", "bed6") and r.random() < 0.25:
+                    v[f] = r.choice(NEG)
+                    rec["texts"][list(FORMATS[fmt_name].fields).index(f)] = str(v[f])
             if fmt_name in ("fastaw", "fasta2") and r.random() < 0.5:
                 L = r.choice([1, 79, 80, 81, 159, 160, 161, 240])
                 v["sequence"] = "".join(r.choice("ACGT") for _ in range(L))
@@ -214,6 +221,47 @@ def run(ctx):
                 et, site = exc_site(e)
                 ctx.judged("read-back", nt)
                 ctx.violation("%s/read-back-raised:%s@%s" % (vkey, et, site), "reading the written file back raised %s: %s" % (et, str(e)[:100]), wit)
+        # the table read back from the written file (lazily where the format allows), cut into row selections and written again:
+        # successive writes of the pieces == one write of their concatenation == the single write; a reordered selection gives the reordered records
+        if n >= 2:
+            # eager re-reading parses and re-renders every field: float columns then depend on C18's parsing bound and eager VCF writing is C05's
+            # known finding, so the eager variant is driven for the formats without float columns only
+            eager_ok = not fname.startswith("vcf") and (kinds is None or "f" not in kinds)
+            for lazy in ((None, False) if eager_ok else (None,)):
+                hist = "reread%s" % ("" if lazy is None else "-eager")
+                try:
+                    back = bnp.open(p0, buffer_type=tables.get_buffer_type(buffer), lazy=lazy).read()
+                    cuts = tuple(sorted(r.sample(range(1, n), r.randint(1, min(3, n - 1)))))
+                    b = [0] + list(cuts) + [n]
+                    pieces = [back[i:j] for i, j in zip(b[:-1], b[1:])]
+                    mask = np.array([r.random() < 0.5 for _ in range(n)])
+                    outs = {}
+                    for name, pcs in (("successive", pieces), ("concatenated", [np.concatenate(pieces)]), ("filter-successive", [back[mask], back[~mask]]), ("filter-concatenated", [np.concatenate([back[mask], back[~mask]])]),
+                                      ("reversed", [back[::-1]])):
+                        pth = ctx.path(hist + name + suffix)
+                        write(pth, pcs, buffer)
+                        outs[name] = read_bytes(pth)
+                except Exception as e:
+                    if not originates_in_library(e):
+                        raise
+                    et, site = exc_site(e)
+                    ctx.judged("history:" + hist, nt)
+                    ctx.violation("%s/%s-write-raised:%s@%s" % (vkey, hist, et, site), "writing selections of the table read back raised %s: %s" % (et, str(e)[:100]), wit)
+                    continue
+                order = [i for i in range(n) if mask[i]] + [i for i in range(n) if not mask[i]]
+                exp_f = header + "".join(exp_recs[i] for i in order)
+                exp_r = header + "".join(exp_recs[::-1])
+                lenient_fmt = fname in ("fastaw",)     # wrapped FASTA re-wraps; compared through the single write only
+                for name, exp in (("successive", single), ("concatenated", single), ("filter-successive", exp_f), ("filter-concatenated", exp_f), ("reversed", exp_r)):
+                    if exp is not single and compare_bytes(fmt, single, exp_recs, header) is not None:
+                        continue
+                    if exp is not single:
+                        why = compare_bytes(fmt, outs[name], [exp_recs[i] for i in (order if name.startswith("filter") else range(n - 1, -1, -1))], header)
+                        ok = why is None
+                    else:
+                        ok = outs[name] == single
+                    ctx.check("history:" + hist, ok, "%s/%s:%s-differs" % (vkey, hist, name), "selections of the table read back, written as %s: got %r expected %r" % (name, outs[name][:200], exp[:200]),
+                              dict(wit, history=hist + ":" + name, got=outs[name][:500], expected=exp[:500], cuts=list(cuts), mask=mask.tolist()), nt and (nt, hist, name))
         # every split into successive writes
         if n >= 2:
             cut_sets = [c for k in range(1, n) for c in itertools.combinations(range(1, n), k)] if n <= nmax else [tuple(sorted(r.sample(range(1, n), r.randint(1, min(8, n - 1))))) for _ in range(12)]
